@@ -150,7 +150,7 @@ def build_cases(ctx, t, info):
     for c in ctx.read_ndjson(os.path.join(rg.dir, "cases.ndjson")):
         dec = c["dec"] if isinstance(c["dec"], dict) else {}
         ks = [o["k"] for tk in c["script"] for o in tk]
-        if len(c["script"]) < 2 or any(d != "allow" for d in dec.values()):
+        if len(c["script"]) < 2 or any(d != "allow" for p in dec.values() for d in p):
             continue
         if not (set(ks) & {"J", "X", "K", "P"}) or "T" not in ks:
             continue
